@@ -17,14 +17,14 @@ for f in sorted(glob.glob(R + '/props/C*.json')):
     if files & touched:
         props[p] = d
 claimed = set(json.load(open(R + '/claimed.json')))
-st = '/scratch/st_seed'
+st = os.environ.get('ST_DIR', '/scratch/st_seed')
 subprocess.run('git -C /repo worktree remove --force %s 2>/dev/null; git -C /repo worktree add -f --detach %s HEAD -q' % (st, st), shell=True)
 res = {}
 try:
     r = subprocess.run('git apply %s' % diff, shell=True, cwd=st, capture_output=True, text=True)
     if r.returncode:
         print('apply failed', r.stderr[:300]); sys.exit(3)
-    env = dict(os.environ, VERIF_REPO=st, VERIF_KANI_TARGET='/verif/.cache/kani-target-seed', VERIF_EVIDENCE_DIR='/scratch/seed_evidence', VERIF_REPLAY_DIR='/scratch/seed_replays')
+    env = dict(os.environ, VERIF_REPO=st, VERIF_KANI_TARGET=os.environ.get('ST_KANI', '/verif/.cache/kani-target-seed'), VERIF_EVIDENCE_DIR='/scratch/seed_evidence', VERIF_REPLAY_DIR='/scratch/seed_replays')
     for p in sorted(props):
         if p not in claimed:
             continue
